@@ -164,6 +164,61 @@ def rejected_variants(rng, texts):
     return out
 
 
+ECODE_FAMILY = [
+    ("E002", "token A B; start s; s: A ?1 B;"),
+    ("E002", "token A B; start s; s: (A ?1)* B;"),
+    ("E003", "token A; start s; s: A nosuch;"),
+    ("E004", "token A; start s; s: A B;"),
+    ("E004", "token A; start s; s: A '+';"),
+    ("E005", "token A; start s; s: A; s: A A;"),
+    ("E005", "token A A; start s; s: A;"),
+    ("E005", "token A='x' B='x'; start s; s: A B;"),
+    ("E006", "token A; start s; s: A Bad; Bad: A;"),
+    ("E007", "token A bad; start s; s: A bad;"),
+    ("E008", "token A; s: A;"),
+    ("E009", "token A; start s; s: A t; t: s;"),
+    ("E010", "token A Error; start s; s: A;"),
+    ("E010", "token A EOFx; start s; s: A;"),
+    ("E010", "token A; start s; s: A error; error: A;"),
+    ("E011", "token A B; start s; s: A B | A;"),
+    ("E012", "token A N; start s; s: e A; e: e A | N;"),
+    ("E013", "token A; start s; s: A* A;"),
+    ("E014", "token A; start s; s: [A] A;"),
+    ("E015", "token A; start s; s: A t; t: t;"),
+    ("E015", "token A; start s; s: A t; t: ?1 t | A;"),
+    ("E016", "token A W; skip W W; start s; s: A;"),
+    ("E017", "token A W; skip W; start s; s: A W;"),
+    ("E018", "token A; skip s; start s; s: A;"),
+    ("E018", "token A; right s; start s; s: A;"),
+    ("E019", "token A P='+'; right '+' P; start s; s: A;"),
+    ("E020", "token N P M; right P; start s; s: e; e: e (P | M) e | N;"),
+    ("E021", "token A B; start s; s: e; e^: e A | B;"),
+    ("E021", "token A B; start s; s: e; e: e A ^ | B;"),
+    ("E022", "token A B; start s; s: t; t: <1 A <1 B 1>x;"),
+    ("E023", "token A B; start s; s: t; t: A B 3>x;"),
+    ("E024", "token A B; start s; s: t; t: (<1 A) B 1>x;"),
+    ("E024", "token A B; start s; s: t; t: [<1 A] B 1>x;"),
+    ("E025", "token A B; start s; s: e; e: e A > | B >;"),
+    ("E025", "token N P; start s; s: e; e: e P e | N >lit;"),
+    ("E025", "token N P; start s; s: e; e: e P e >bin | N;"),
+    ("E025", "token N P M; start s; s: e; e: e P e | e M e | N >lit;"),
+    ("E025", "token N P U; start s; s: e; e: U e >neg | e P e | N;"),
+    ("E025", "token N P B; start s; s: e; e: e P e | e B | N >lit;"),
+    ("E026", "token A; start A; s: A;"),
+    ("E026", "token A; start s; part A; s: A;"),
+    ("E027", "token A; start s; s: t; t: A @;"),
+    ("E028", "token A B; start s; s: (A (A / A B) / A);"),
+    ("E028", "token A B; start s; s: (t / A); t: (A / A B);"),
+    ("E029", "token A B; start s; s: (A #1 B / A);"),
+    ("E030", "token A B; start s; s: A & B;"),
+    ("E031", "token A; start s; start t; s: A; t: A;"),
+    ("E032", "token A; start s; s^: A;"),
+    ("E032", "token A B; start s; s: A ^ | B;"),
+    ("E033", "token A; start s; part t t; s: t; t: A;"),
+    ("E034", "token A; start s; part s; s: A;"),
+]
+
+
 def selection(tier):
     rng = random.Random(seed())
     texts = []
@@ -184,6 +239,8 @@ def selection(tier):
         texts.append((g["name"], G.render(g), "family"))
     for nm, t in rejected_variants(rng, acc[: (70 if tier == "quick" else 600)]):
         texts.append((nm, t, "rejected"))
+    for k, (code, t) in enumerate(ECODE_FAMILY):
+        texts.append(("ecode_%s_%d" % (code, k), t.replace("; ", ";\n") + "\n", "ecode"))
     return texts
 
 
@@ -296,6 +353,7 @@ def judge(prop, tier):
         rep.violation(key, desc, {"property": "C11", "why": v["why"], "cause": cause, "grammar": r["name"],
                                   "grammar_text": r["text"], "observed": {k: r[k] for k in r if k not in ("g", "text")}})
     acc = [r for r in recs if r["accepted"]]
+    ecode_accepted = [r["name"] for r in recs if origin[r["name"]] == "ecode" and r["accepted"]]
     rep.coverage = {
         "evaluations": len(recs), "distinct_nontrivial": len({r["text"] for r in acc if r["written"]}) + len({r["text"] for r in recs if not r["accepted"]}),
         "rule": "one llw invocation + one rustc compilation per distinct grammar text; non-trivial: accepted grammars whose "
@@ -305,6 +363,7 @@ def judge(prop, tier):
         "compiled": sum(1 for r in acc if r["compiled"]),
         "by_origin": {o: sum(1 for r in recs if origin[r["name"]] == o) for o in set(origin.values())},
         "tlc_states": res.distinct, "model_drift": len(drift),
+        "error_code_family_accepted_by_lelwel": ecode_accepted,
         "binding_selftest": {"corrupted": 1 if st else 0, "rejected": 1 if st else 0},
         "exhaustive": False,
         "explanation": "rustc and llw are observed, not modelled (DESIGN 5 C11: exploration level); TLC judges the "
